@@ -99,7 +99,7 @@ func (X *Exec) execAppend(fr *Frame, ins ssa.Instruction, cc *ssa.CallCommon, st
 		tarr, toff := ts.Sel(t, 0), ts.Sel(t, 1)
 		tlen = ts.Sel(t, 2)
 		tdata := ts.Select(E, tarr)
-		src = func(k *Term) *Term { return ts.Select(tdata, ts.Add(toff, k)) }
+		src = func(k *Term) *Term { return ts.Select(tdata, X.E.ElemIdx(toff, k)) }
 	}
 	newLen := ts.Add(slen, tlen)
 	inPlace := ts.Le(newLen, scap)
@@ -113,7 +113,7 @@ func (X *Exec) execAppend(fr *Frame, ins ssa.Instruction, cc *ssa.CallCommon, st
 	if sl, ok := staticLen(t); ok && sl <= 8 {
 		a1 = sdata
 		for k := int64(0); k < sl; k++ {
-			a1 = ts.Store(a1, ts.Add(ts.Add(soff, slen), ts.IntLit(k)), src(ts.IntLit(k)))
+			a1 = ts.Store(a1, X.E.ElemIdx(soff, ts.Add(slen, ts.IntLit(k))), src(ts.IntLit(k)))
 		}
 	} else {
 		a1 = ts.Fresh("append.inplace", hs.Elem)
@@ -126,7 +126,7 @@ func (X *Exec) execAppend(fr *Frame, ins ssa.Instruction, cc *ssa.CallCommon, st
 		a2 = ts.Fresh("append.fresh", hs.Elem)
 		k := ts.BoundVar("k", SInt)
 		body := ts.And(
-			ts.Implies(ts.And(ts.Le(ts.IntLit(0), k), ts.Lt(k, slen)), ts.Eq(ts.Select(a2, k), ts.Select(sdata, ts.Add(soff, k)))),
+			ts.Implies(ts.And(ts.Le(ts.IntLit(0), k), ts.Lt(k, slen)), ts.Eq(ts.Select(a2, k), ts.Select(sdata, X.E.ElemIdx(soff, k)))),
 			ts.Implies(ts.And(ts.Le(slen, k), ts.Lt(k, newLen)), ts.Eq(ts.Select(a2, k), src(ts.Sub(k, slen)))))
 		st.assume(ts, ts.Forall([]*Term{k}, body, []*Term{ts.Select(a2, k)}))
 	}
@@ -154,7 +154,7 @@ func (X *Exec) execCopy(fr *Frame, ins ssa.Instruction, cc *ssa.CallCommon, st *
 		sdata := ts.Select(E, ts.Sel(s, 0))
 		soff := ts.Sel(s, 1)
 		slen = ts.Sel(s, 2)
-		src = func(k *Term) *Term { return ts.Select(sdata, ts.Add(soff, k)) }
+		src = func(k *Term) *Term { return ts.Select(sdata, X.E.ElemIdx(soff, k)) }
 	}
 	cnt := ts.Ite(ts.Le(dlen, slen), dlen, slen)
 	ddata := ts.Select(E, darr)
@@ -248,9 +248,9 @@ func (X *Exec) specialCall(fr *Frame, ins ssa.Instruction, callee *ssa.Function,
 		f := args[1]
 		ran := ts.Fresh("once.runs", SBool)
 		with := st.Clone()
-		with.assume(ts, ran)
+		with.branch(ts, ran)
 		without := st.Clone()
-		without.assume(ts, ts.Not(ran))
+		without.branch(ts, ts.Not(ran))
 		X.callFuncValue(fr, ins, with, f, nil, "once")
 		m := X.merge([]*State{with, without})
 		*st = *m
